@@ -561,8 +561,34 @@ func (self *Analyzer) TypeCheck(got ast.Type, expected ast.Type, options TypeChe
 				}
 			}
 		case ast.VarArgsFunctionTypeParamKindIdentifierKind:
-			// TODO: ...
-			panic("TODO: implement or remove this")
+			// both functions take a variable number of arguments: the leading parameter types and the
+			// type of the remaining arguments must agree
+			expectedVarArgs := expectedFn.Params.(ast.VarArgsFunctionTypeParamKindIdentifier)
+			gotVarArgs := gotFn.Params.(ast.VarArgsFunctionTypeParamKindIdentifier)
+
+			if len(expectedVarArgs.ParamTypes) != len(gotVarArgs.ParamTypes) {
+				return newCompatibilityErr(
+					diagnostic.Diagnostic{
+						Level:   diagnostic.DiagnosticLevelError,
+						Message: fmt.Sprintf("Expected %d leading parameter(s), found %d", len(expectedVarArgs.ParamTypes), len(gotVarArgs.ParamTypes)),
+						Notes:   nil,
+						Span:    gotFn.ParamsSpan,
+					},
+					nil,
+				)
+			}
+
+			for idx, expectedParamType := range expectedVarArgs.ParamTypes {
+				if err := self.TypeCheck(gotVarArgs.ParamTypes[idx], expectedParamType, options); err != nil {
+					return err
+				}
+			}
+
+			if expectedVarArgs.RemainingType != nil && gotVarArgs.RemainingType != nil {
+				if err := self.TypeCheck(gotVarArgs.RemainingType, expectedVarArgs.RemainingType, options); err != nil {
+					return err
+				}
+			}
 		default:
 			panic("A new function parameter type kind was introduced without updating this code")
 		}
